@@ -11,7 +11,7 @@
 //! The whole script is a pure function of ONE u64 drawn from `shuttle::rand` at the
 //! start of the execution, so it is part of the persisted schedule and replays.
 
-use std::sync::{Arc, Mutex};
+use std::sync::Arc;
 use std::time::Duration as StdDuration;
 
 use rand::RngCore;
@@ -593,11 +593,4 @@ pub fn order_text(order: &[(u8, Kind)]) -> String {
         .map(|(t, k)| format!("{t}{}", if *k == Kind::Read { 'R' } else { 'W' }))
         .collect::<Vec<_>>()
         .join(" ")
-}
-
-#[allow(dead_code)]
-fn _assert_send() {
-    fn is_send<T: Send>() {}
-    is_send::<BmcaPort<'static>>();
-    let _ = Mutex::new(0);
 }
